@@ -367,6 +367,7 @@ def run(ctx):
             ctx.sample({'signature': sig, 'decomposition': G.split_signature(sig)})
     if si == 0:
         wrappers(ctx)
+        refused_then_repaired(ctx)
     nval = (8000 if ctx.tier == 'quick' else 200000) // sn
     for i in range(nval):
         idx = i * sn + si
@@ -378,6 +379,44 @@ def run(ctx):
             break
     ctx.require(ctx.counters.get('split_cases', 0) > 1000, 'too few split cases')
     ctx.require(ctx.counters.get('value_cases', 0) > 500, 'too few value cases')
+
+
+def refused_then_repaired(ctx):
+    """A value that cannot travel (an element has no DBus type) is refused; the same container repaired in place, and
+    fresh containers built afterwards, are ordinary values again: what a refusal leaves behind must not change what is
+    inferred and encoded later."""
+    BAD = None
+    shapes = [
+        (lambda: [BAD], lambda c: c.__setitem__(0, 5)),
+        (lambda: {'icon': BAD}, lambda c: c.__setitem__('icon', 'x')),
+        (lambda: [[BAD]], lambda c: c[0].__setitem__(0, 'y')),
+        (lambda: {'a': [BAD]}, lambda c: c['a'].__setitem__(0, 1.5)),
+        (lambda: [{'k': BAD}], lambda c: c[0].__setitem__('k', True)),
+        (lambda: {'outer': {'inner': BAD}}, lambda c: c['outer'].__setitem__('inner', 7)),
+        (lambda: [[1, 2], [BAD]], lambda c: c[1].__setitem__(0, 3)),
+        (lambda: [('t', [BAD])], None),
+        (lambda: ('title', [BAD]), None),
+    ]
+    for rounds in range(3):
+        for k, (mk, repair) in enumerate(shapes):
+            case = {'kind': 'refused-then-repaired', 'shape': k}
+            c = mk()
+            ctx.count('evaluations')
+            try:
+                M.marshal('v', [c])
+                ctx.count('unrepresentable_value_encoded')        # not judged here
+            except Exception:
+                ctx.count('refusals')
+            if repair is not None:
+                repair(c)
+                check_value(ctx, c, case, 'container refused once, repaired in place: %r' % (c,))
+                ctx.count('repaired_values')
+            del c
+            # fresh ordinary containers right after the refusal (the refused ones are garbage by now)
+            for j in range(40):
+                fresh = [[j], {'k': j}, (j, [j]), [[j, j + 1]], {'a': [j]}, [{'k': j}]][j % 6]
+                check_value(ctx, fresh, case, 'fresh value after a refusal: %r' % (fresh,))
+            ctx.count('fresh_values_after_refusal', 40)
 
 
 def _safe_sig(v):
@@ -397,5 +436,7 @@ def replay(ctx, rp):
     elif case['kind'] == 'value':
         v, desc = value_case(rp.get('seed', 0), case['idx'])
         check_value(ctx, v, case, desc)
+    elif case['kind'] == 'refused-then-repaired':
+        refused_then_repaired(ctx)
     else:
         wrappers(ctx)
